@@ -27,9 +27,11 @@ VARIABLES
   \* @type: Int;
   res,     \* the value returned by the call (fn = "timeout": _dispatch_timeout(base))
   \* @type: Int;
-  res1     \* the value returned by the same call with delta + 1 (0 if not applicable)
+  res1,    \* the value returned by the same call with delta + 1 (0 if not applicable)
+  \* @type: Str;
+  cls      \* the known-deviation input class of the call ("" = none)
 
-vars == <<ph, fn, base, delta, sec, nsec, now, res, res1>>
+vars == <<ph, fn, base, delta, sec, nsec, now, res, res1, cls>>
 
 \* the call
 \* @type: (Str, Int, Int, Int, Int, $now) => Int;
@@ -40,14 +42,20 @@ Call(f, b, d, s, n, nw) ==
 \* @type: (Str, Int, Int, Int, Int, $now) => Int;
 Call1(f, b, d, s, n, nw) == IF f = "timeout" \/ d = SMAX THEN 0 ELSE Call(f, b, d + 1, s, n, nw)
 
+\* @type: (Str, Int, Int, Int, Int, $now) => Str;
+ClassOf(f, b, d, s, n, nw) ==
+  IF f = "time" THEN ClassTime(b, d, nw)
+  ELSE IF f = "timeout" THEN ""
+  ELSE ClassWalltime(f = "walltime", s, n, d, nw)
+
 \* TLC: the first half of each input tuple is chosen by Init, the second half by the single
 \* step Choose, so that the enumeration is spread over the workers.
 InitTLC ==
-  /\ ph = 0 /\ delta = 0 /\ nsec = 0 /\ res = 0 /\ res1 = 0
+  /\ ph = 0 /\ delta = 0 /\ nsec = 0 /\ res = 0 /\ res1 = 0 /\ cls = ""
   /\ \/ fn = "time" /\ base \in 0 .. M - 1 /\ sec = 0 /\ now \in NowSet
      \/ fn = "timeout" /\ base \in 0 .. M - 1 /\ sec = 0 /\ now \in NowSet
      \/ fn = "walltime_null" /\ base = 0 /\ sec = 0 /\ now \in NowSet
-     \/ fn = "walltime" /\ base = 0 /\ sec \in SMIN .. SMAX /\ now \in (IF Thorough THEN NowSet ELSE TwoNows)
+     \/ fn = "walltime" /\ base = 0 /\ sec \in SMIN .. SMAX /\ now \in (IF Thorough THEN NowSet ELSE OneNow)
 
 Choose ==
   /\ ph = 0 /\ ph' = 1
@@ -56,6 +64,7 @@ Choose ==
   /\ nsec' \in (IF fn = "walltime" THEN (IF Thorough THEN NsecSet ELSE NsecSetQuick) ELSE {0})
   /\ res' = Call(fn, base, delta', sec, nsec', now)
   /\ res1' = Call1(fn, base, delta', sec, nsec', now)
+  /\ cls' = ClassOf(fn, base, delta', sec, nsec', now)
 
 Next == Choose
 
@@ -70,16 +79,21 @@ InitFullFn(f) ==
   /\ now \in [up : 1 .. MAXV, mono : 1 .. MAXV, wall : 3 .. MAXV]
   /\ res = Call(f, base, delta, sec, nsec, now)
   /\ res1 = Call1(f, base, delta, sec, nsec, now)
+  /\ cls = ClassOf(f, base, delta, sec, nsec, now)
 InitFullTime == InitFullFn("time")
 InitFullTimeout == InitFullFn("timeout")
-InitFullWalltime == InitFullFn("walltime")
-InitFullWalltimeNull == InitFullFn("walltime_null")
+InitFullWall == InitFullFn("walltime") \/ InitFullFn("walltime_null")
+\* ... the part of it outside the class wt_int64_overflow.  (Inside that class the *OrKnown
+\* invariants hold by definition, so this is all there is to prove about the pinned code.)
+InitFullWallNoOverflow ==
+  /\ InitFullWall
+  /\ LET b == IF fn = "walltime" THEN sec * NPS + nsec ELSE now.wall IN
+     /\ b >= SMIN /\ b <= SMAX /\ b + delta >= SMIN /\ b + delta <= SMAX
 
 \* reference and known-deviation class for the current state
 Ref == IF fn = "time" THEN RefTime(base, delta, now)
        ELSE RefWalltime(fn = "walltime", sec, nsec, delta, now)
-Class == IF fn = "time" THEN ClassTime(base, delta, now)
-         ELSE ClassWalltime(fn = "walltime", sec, nsec, delta, now)
+Class == cls
 Class1 == IF fn = "time" THEN ClassTime(base, delta + 1, now)
           ELSE ClassWalltime(fn = "walltime", sec, nsec, delta + 1, now)
 IsCall == ph = 1 /\ fn # "timeout"      \* a dispatch_time / dispatch_walltime call
@@ -89,12 +103,15 @@ TypeOK == /\ ph \in {0, 1}
           /\ base \in 0 .. M - 1 /\ delta \in SMIN .. SMAX
           /\ sec \in SMIN .. SMAX /\ nsec \in SMIN .. SMAX /\ NowOK(now)
           /\ res \in 0 .. M - 1 /\ res1 \in 0 .. M - 1
+          /\ cls \in {"", "dt_sum_eq_max", "dt_wall_sum_eq_1", "wt_int64_overflow", "wt_unsaturated",
+                      "wt_past_nonneg_delta"}
 
 \* the SMT-friendly helpers mean what the C operators mean
 HelpersExact ==
   /\ BitQ(base) = ((base \div Q) % 2 = 1)
   /\ \A x \in {base, delta, 0 - base, base + delta, base - delta + M, sec * NPS + nsec, 3 * base} :
         U(x) = x % M
+  /\ TimespecToNano(sec, nsec) = TimespecToNanoC(sec, nsec)
 
 \* (L1) same clock, exact shift, or saturation -- the property's first sentence
 Conforms == IsCall => RefOK(Ref, res, now)
@@ -128,6 +145,10 @@ TimeoutExact ==
 \* Each known class really contains a deviation of the pinned code (checked as an
 \* invariant that must be VIOLATED when Fixed = {}):  NoDev_<class>
 NoDevIn(c) == ~(IsCall /\ Class = c /\ ~RefOK(Ref, res, now))
+\* Apalache: one counterexample per class in one run (--view=ClassView --max-error=n)
+NoDevAny == ~(IsCall /\ Class # "" /\ ~RefOK(Ref, res, now))
+\* @type: Str;
+ClassView == Class
 NoDev_dt_sum_eq_max == NoDevIn("dt_sum_eq_max")
 NoDev_dt_wall_sum_eq_1 == NoDevIn("dt_wall_sum_eq_1")
 NoDev_wt_int64_overflow == NoDevIn("wt_int64_overflow")
